@@ -343,6 +343,14 @@ class Executor:
             return
         if z3.is_true(goal):
             return
+        c = self.cur_func.contract if self.cur_func is not None else None
+        if kind == "safety" and c is not None and "nosafety" in c.flags:
+            skip = (c.flags.get("nosafety") or "").split()
+            if any(label.startswith(x) for x in skip):
+                self.assumptions.add("%s: implicit %s obligations are not generated (wiring of configuration/transport objects is assumed non-nil)" % (
+                    self.prog.short(self.cur_func.full), "/".join(skip)))
+                self.assume(st, goal)
+                return
         name = "%s:%s:%s" % (self.prog.short(self.cur_func.full), kind, label)
         self.obligations.append(Obligation(name, kind, st.pc, goal, len(self.facts), ln, self.cur_func, text, canary))
         # after checking, the fact may be used downstream (standard assert-then-assume)
